@@ -398,6 +398,17 @@ class StreamProcessor(Entity):
 
         return events
 
+    def _next_watermark_time(self) -> Instant:
+        """Instant of the next watermark tick, strictly after the current instant.
+
+        Computed in integer nanoseconds: a round trip through float seconds
+        (``Instant.from_seconds(now.to_seconds() + interval)``) can truncate to
+        the current instant for very small intervals, which re-delivers the
+        watermark at a frozen clock forever.
+        """
+        step_ns = max(1, int(self._watermark_interval_s * 1_000_000_000))
+        return Instant(self.now.nanoseconds + step_ns)
+
     def handle_event(self, event: Event) -> Generator[float, None, list[Event] | None]:
         """Handle stream processor events."""
         event_type = event.event_type
@@ -495,9 +506,7 @@ class StreamProcessor(Entity):
                 yield 0.0
                 return [
                     Event(
-                        time=Instant.from_seconds(
-                            self.now.to_seconds() + self._watermark_interval_s
-                        ),
+                        time=self._next_watermark_time(),
                         event_type="Watermark",
                         target=self,
                         context={"watermark_s": event_time_s},
@@ -520,7 +529,7 @@ class StreamProcessor(Entity):
             result_events = self._emit_closed_windows()
 
             # Reschedule watermark
-            next_time = Instant.from_seconds(self.now.to_seconds() + self._watermark_interval_s)
+            next_time = self._next_watermark_time()
             # Advance watermark based on simulation time
             next_watermark = self.now.to_seconds()
             result_events.append(
